@@ -5,7 +5,8 @@ import numpy as np
 
 from . import catalog, opsfam
 
-ACTS = {"Product", "Kronecker", "BlockDiag", "Sum", "Transpose", "Adjoint", "Annot", "KronSum", "NoDispatch", "linalg"}
+ACTS = {"Product", "Kronecker", "BlockDiag", "Sum", "Transpose", "Adjoint", "Annot", "KronSum", "NoDispatch", "SelfProd",
+        "linalg"}
 
 
 def extra_leaves():
